@@ -368,6 +368,23 @@ def shard(ctx):
     seed = (ctx.seed * 1000 + ctx.shard) * 11 + 5
     with collecting(ctx):
         run_state_machine_as_test(hypothesis.seed(seed)(Mc), settings=hyp_settings(6000 if thorough else 150, shrink=True, stateful_steps=30))
+    # every ordered pair of (label triple, form) through every binary operation, enumerated (the random histories meet a particular pair -
+    # say a series ratio on the left of a series whose fat and protein labels differ - only now and then)
+    v = [2.0, 3.0, 4.0, 5.0, 6.0, 7.0, -8.0, 9.0, 10.0]
+    forms = ["total", "per", "each"]
+    scripts = []
+    for b1, f1, b2, f2 in itertools.product(range(len(BASES)), forms, range(len(BASES)), forms):
+        for op in (["binary", 0, 1, "add"], ["binary", 0, 1, "sub"], ["binary", 0, 1, "min_elementwise"], ["binary", 0, 1, "div"],
+                   ["times_food", 0, 1, False], ["times_food", 0, 1, True]):
+            scripts.append([["construct", b1, f1, 2, v], ["construct", b2, f2, 2, v], op])
+    for k, steps in enumerate(scripts):
+        if k % ctx.nshards != ctx.shard:
+            continue
+        try:
+            replay(dict(kind="machine", steps=steps), ctx)
+            ctx.event("enumerated_pair_script")
+        except Violation as viol:
+            ctx.record_violation(viol)
     grid = [-1.0, 0.0, 1.0, 2.0] if thorough else [-1.0, 0.0, 1.0]
     triples = list(itertools.product(grid, repeat=3))
     jobs = []
